@@ -12,11 +12,17 @@ func readUint64(buf []byte, r io.Reader) (uint64, error) {
 	return binary.LittleEndian.Uint64(buf[:8]), nil
 }
 
-func readPrefixedString(buf []byte, r io.Reader) (string, error) {
+// readPrefixedString reads a length-prefixed string from r. limit is the number of
+// bytes known to remain in the enclosing record (including the prefix); a longer
+// string cannot be complete and is refused before anything is allocated for it.
+func readPrefixedString(buf []byte, r io.Reader, limit uint64) (string, error) {
 	if _, err := io.ReadFull(r, buf[:4]); err != nil {
 		return "", err
 	}
 	strlen := binary.LittleEndian.Uint32(buf[:4])
+	if limit < 4 || uint64(strlen) > limit-4 {
+		return "", io.ErrUnexpectedEOF
+	}
 	s, err := makeSafe(uint64(strlen))
 	if err != nil {
 		return "", err
